@@ -289,6 +289,9 @@ func runC02(c *Ctx) {
 		c.Check("C02.B", "request-path:body-untouched", p, 0, bad == "" && inspected > 100, fmt.Sprintf("%d call sites on the request path inspected: none reads, parses, dumps or re-serialises the forwarded request (the shim endpoints read their own control messages only)", inspected), "on the pass-through path "+bad+": the backend no longer receives the body the client sent (consumed/parsed before forwarding)")
 	}
 
+	c.Rule("C02.M", "request bytes live in call-owned buffers (no pooled memory on the request path)", 1)
+	rulePooledMemory(c, p, "C02.M", "agent/utils", "server", "agent")
+
 	// ---- C02.I
 	if f := c.need(p, "C02.I", "server.newPendingRequest"); f != nil {
 		as := AllocsOf(f, "server.pendingRequest")
